@@ -1403,6 +1403,12 @@ func (cx *Ctx) paramSubtractions(r *Report) {
 		}
 		return false
 	}
+	type subSite struct {
+		f    *ssa.Function
+		c    *ssa.Call
+		name string
+	}
+	var sites []subSite
 	n, nParam := 0, 0
 	for _, f := range cx.P.AllFuncs {
 		if !isConsensusCode(cx, f) || pkgRole(funcPkgPath(f)) == RoleUpgrade {
@@ -1426,27 +1432,72 @@ func (cx *Ctx) paramSubtractions(r *Report) {
 					continue
 				}
 				nParam++
-				w := newWalker(cx)
-				fr := &Frame{Fn: f}
-				rt, at := w.ts.Of(recv, fr).LooseString(), w.ts.Of(arg, fr).LooseString()
-				guard := ""
-				for _, ft := range w.FactsAt(fr, c) {
-					t := ft.Text
-					switch {
-					case ft.Holds && (strings.HasSuffix(t, ".IsGTE("+rt+", "+at+")") || strings.HasSuffix(t, ".IsAllGTE("+rt+", "+at+")") || strings.HasSuffix(t, ".GTE("+rt+", "+at+")") || strings.HasSuffix(t, ".IsLTE("+at+", "+rt+")") || strings.HasSuffix(t, ".LTE("+at+", "+rt+")")),
-						!ft.Holds && (strings.HasSuffix(t, ".IsLT("+rt+", "+at+")") || strings.HasSuffix(t, ".LT("+rt+", "+at+")") || strings.HasSuffix(t, ".IsGT("+at+", "+rt+")") || strings.HasSuffix(t, ".GT("+at+", "+rt+")") || strings.HasSuffix(t, ".IsAnyGT("+at+", "+rt+")")):
-						guard = ft.String()
-					}
-				}
-				key := moduleOf(funcPkgPath(f)) + "|" + name + "|" + anchorOf(cx, f)
-				// x − ⌊x·rate⌋: never negative for a rate ≤ 1, which is the fee-tax-bounded obligation
-				if guard == "" && strings.Contains(at, "math.LegacyDec.TruncateInt(math.LegacyDec.Mul(math.LegacyNewDecFromInt("+rt+".Amount), ") && strings.HasPrefix(at, "coin("+rt+".Denom, ") {
-					r.ok("params-subtraction", key, cx.P.Pos(c.Pos()), "the receiver minus a truncated fraction of itself ("+rt+" − ⌊"+rt+"·rate⌋): not negative for a rate ≤ 1 (rule fee-tax-bounded)")
-					continue
-				}
-				r.check(guard != "", "params-subtraction", key, cx.P.Pos(c.Pos()), "the aborting subtraction is dominated by "+guard, name+" of "+rt+" and "+at+" in "+shortFn(f)+" aborts (negative amount) when the argument exceeds the receiver; one of them comes from the module's parameters and no test receiver ≥ argument dominates the call: after an accepted parameter update (a limit lowered below the recorded supply) the handler panics instead of rejecting")
+				sites = append(sites, subSite{f, c, name})
 			}
 		}
+	}
+	// judged on the call chains that reach the site (the operands may be parameters of a
+	// small component: fee.Sub(tax) in a settler whose caller computes tax = ⌊fee·rate⌋)
+	isSite := map[ssa.Instruction]bool{}
+	for _, st := range sites {
+		isSite[st.c] = true
+	}
+	type occ struct {
+		w  *Walker
+		ev *Event
+	}
+	occs := map[ssa.Instruction][]occ{}
+	if len(sites) > 0 {
+		cx.forEachEvent(cx.EntriesOf("msg", "abci", "callback"), func(ci ssa.CallInstruction) string {
+			if in, ok := ci.(ssa.Instruction); ok && isSite[in] {
+				return "watch.sub"
+			}
+			return ""
+		}, func(e *Entry, w *Walker, ev *Event) {
+			if ev.Kind == "watch.sub" {
+				occs[ev.Site] = append(occs[ev.Site], occ{w, ev})
+			}
+		})
+	}
+	for _, st := range sites {
+		f, c, name := st.f, st.c, st.name
+		list := occs[c]
+		if len(list) == 0 {
+			w := newWalker(cx)
+			fr := &Frame{Fn: f}
+			ev := &Event{Fr: fr, Kind: "watch.sub", Site: c}
+			for _, a := range c.Common().Args {
+				ev.Args = append(ev.Args, w.ts.Of(a, fr))
+			}
+			list = []occ{{w, ev}}
+		}
+		key := moduleOf(funcPkgPath(f)) + "|" + name + "|" + anchorOf(cx, f)
+		bad, okWhy := "", ""
+		for _, o := range list {
+			if len(o.ev.Args) < 2 {
+				continue
+			}
+			rt, at := o.ev.Args[0].LooseString(), o.ev.Args[1].LooseString()
+			guard := ""
+			for _, ft := range o.w.FactsAt(o.ev.Fr, o.ev.Site) {
+				t := ft.Text
+				switch {
+				case ft.Holds && (strings.HasSuffix(t, ".IsGTE("+rt+", "+at+")") || strings.HasSuffix(t, ".IsAllGTE("+rt+", "+at+")") || strings.HasSuffix(t, ".GTE("+rt+", "+at+")") || strings.HasSuffix(t, ".IsLTE("+at+", "+rt+")") || strings.HasSuffix(t, ".LTE("+at+", "+rt+")")),
+					!ft.Holds && (strings.HasSuffix(t, ".IsLT("+rt+", "+at+")") || strings.HasSuffix(t, ".LT("+rt+", "+at+")") || strings.HasSuffix(t, ".IsGT("+at+", "+rt+")") || strings.HasSuffix(t, ".GT("+at+", "+rt+")") || strings.HasSuffix(t, ".IsAnyGT("+at+", "+rt+")")):
+					guard = ft.String()
+				}
+			}
+			switch {
+			case guard != "":
+				okWhy = "the aborting subtraction is dominated by " + guard
+			case strings.Contains(at, "math.LegacyDec.TruncateInt(math.LegacyDec.Mul(math.LegacyNewDecFromInt("+rt+".Amount), ") && strings.HasPrefix(at, "coin("+rt+".Denom, "):
+				// x − ⌊x·rate⌋: never negative for a rate ≤ 1, which is the fee-tax-bounded obligation
+				okWhy = "the receiver minus a truncated fraction of itself (" + trunc(rt, 80) + " − ⌊·rate⌋): not negative for a rate ≤ 1 (rule fee-tax-bounded)"
+			default:
+				bad = name + " of " + trunc(rt, 160) + " and " + trunc(at, 160) + " in " + shortFn(f) + " aborts (negative amount) when the argument exceeds the receiver; one of them comes from the module's parameters and no test receiver ≥ argument dominates the call: after an accepted parameter update (a limit lowered below the recorded supply) the handler panics instead of rejecting"
+			}
+		}
+		r.check(bad == "", "params-subtraction", key, cx.P.Pos(c.Pos()), okWhy, bad)
 	}
 	r.ok("params-subtraction", "scan", "", fmt.Sprintf("%d aborting subtractions (Coin.Sub, Coins.Sub, Uint.Sub) in consensus code, %d with an operand derived from a parameter read, each under a receiver ≥ argument test", n, nParam))
 }
